@@ -55,6 +55,7 @@ def check(ctx):
     abs_ = Abs(prog, cg, ctx.flow)
     install_find_hooks(ctx, abs_)
     ex = ExcAnalysis(prog, cg, ctx.flow, abs_)
+    ex.trust_untyped = False      # the parser's input is untrusted: an unknown static type proves nothing
     ex.entry_fqs = {e.fq for e in entries}
     reach = cg.reachable(entries)
     iters = ex.solve(reach)
